@@ -10,6 +10,7 @@ Exit 2: the machinery itself failed (not a verdict).
 import fcntl
 import hashlib
 import json
+import glob
 import os
 import re
 import subprocess
@@ -199,6 +200,9 @@ def main():
         tier = os.environ.get('VERIF_TIER', 'quick')
     seed = int(os.environ.get('VERIF_SEED', '1') or '1')
     spec = casegen.PROPS[pid]
+    # replay files of earlier runs of this property are stale
+    for f in glob.glob(os.path.join(V, 'replays', '%s-*.json' % pid)):
+        os.remove(f)
     log = []
     violations = []   # (kind, replay path, tail)
     known_hit = []
